@@ -421,6 +421,30 @@ type goGen struct {
 	notes    []string
 	fail     string
 	bv       bool
+	f64      map[string]uint64 // abstract float value -> bits of the float it was given
+}
+
+// opaqueFloat: in a script where float64 is an uninterpreted sort the model's values are
+// abstract; each distinct one becomes a distinct ordinary float (1.0 plus k ulps).
+func (g *goGen) opaqueFloat(v string) (uint64, bool) {
+	if v == "f64zero" {
+		return 0, true
+	}
+	if v == "f64negzero" {
+		return 1 << 63, true
+	}
+	if !strings.HasPrefix(v, "F64!val!") {
+		return 0, false
+	}
+	if g.f64 == nil {
+		g.f64 = map[string]uint64{}
+	}
+	if b, ok := g.f64[v]; ok {
+		return b, true
+	}
+	b := uint64(0x3ff0000000000000) + uint64(len(g.f64)) + 1
+	g.f64[v] = b
+	return b, true
 }
 
 func (g *goGen) qual(p *types.Package) string {
@@ -469,6 +493,9 @@ func (g *goGen) expr(o *Obs) string {
 		return fmt.Sprintf("%s(%s)", g.typ(o.Typ), g.strLit(o.Val))
 	case "float":
 		bits, ok := smtFloatBits(o.Val)
+		if !ok {
+			bits, ok = g.opaqueFloat(o.Val)
+		}
 		if !ok {
 			g.fail = o.Path + ": float value " + o.Val
 		}
@@ -673,6 +700,8 @@ func (g *goGen) predicted(o *Obs, m map[string]string) {
 	case "float":
 		if b, ok := smtFloatBits(o.Val); ok {
 			m[o.Path] = fmt.Sprintf("0x%x", b)
+		} else if b, ok := g.f64[o.Val]; ok {
+			m[o.Path] = fmt.Sprintf("0x%x", b)
 		}
 	case "time":
 		if n, _, ok := smtInt(o.Val); ok {
@@ -804,7 +833,11 @@ func pinModel(o *Obs, strs map[string][]string, out *[]string) {
 		}
 	}
 	switch o.Kind {
-	case "int", "bool", "float", "time", "ptr":
+	case "float":
+		if !strings.HasPrefix(o.Val, "F64!") {
+			pin(o.T, o.Val)
+		}
+	case "int", "bool", "time", "ptr":
 		pin(o.T, o.Val)
 	case "err", "iface":
 		pin(Term{app("i_typ", o.T), "Int"}, o.Val)
@@ -1205,6 +1238,10 @@ search:
 	}
 	kinds := map[string]int{}
 	countOutLeaves(ri.Out, kinds)
+	if o.Script.OpaqueFloat && kinds["float"] > 0 {
+		rr.Note = strings.TrimSpace(rr.Note + " the clause was not evaluated on the real run's outputs: floats are abstract in this function's script")
+		return rr
+	}
 	eq := scriptPrefix(o, o.Prefix) + strings.Join(pins, "\n") + "\n" + strings.Join(opins, "\n") + "\n(assert (not " + o.Goal + "))\n(check-sat)\n"
 	for _, sv := range []SolverCfg{solvers[1], solvers[2]} {
 		res, _, _ := runSolver(sv, eq, 20)
